@@ -157,11 +157,14 @@ class Frame:
 
     def lookup(self, name):
         f = self
+        harness = False
         while f is not None:
             if isinstance(f, dict):
                 if name in f:
                     return f[name]
                 break
+            if getattr(f, "harness_closure", False):
+                harness = True
             if name in f.locals:
                 return f.locals[name]
             f = f.closure
@@ -169,6 +172,10 @@ class Frame:
             return self.globals[name]
         if hasattr(builtins, name):
             return getattr(builtins, name)
+        if harness:
+            # a nested function verified against a closure the contract's harness supplies: a free variable
+            # the harness does not know means the enclosing function was edited (renamed variable)
+            raise Unsupported(f"the nested function reads the enclosing variable {name!r}, which the contract's closure does not provide")
         raise RaiseSig(NameError(name))
 
     def contract_lookup(self, name):
